@@ -4,7 +4,7 @@
    Proofs/CatalogueInv.v.  `repaired c` = the code after fix-F-C15a.diff and fix-F-C15b.diff (fix_c free:
    both variants of IndexedStringField.__init__ are covered). *)
 From Coq Require Import ZArith List Bool.
-From EV Require Import Res Catalogue CatalogueSpec CatalogueIdentSpec CatalogueBase CatalogueInv CatalogueRename CatalogueRenameOk CatalogueStep CatalogueObs CatalogueData CatalogueHandles CatalogueVerdicts CatalogueTrace CatalogueWitness CatalogueIdent CatalogueIdentTrace CatalogueLoader.
+From EV Require Import Res Catalogue CatalogueSpec CatalogueIdentSpec CatalogueBase CatalogueInv CatalogueRename CatalogueRenameOk CatalogueStep CatalogueObs CatalogueData CatalogueHandles CatalogueVerdicts CatalogueTrace CatalogueWitness CatalogueIdent CatalogueIdentTrace CatalogueLoader CatalogueLoaderOk.
 Import ListNotations.
 Open Scope Z_scope.
 
@@ -56,7 +56,7 @@ Theorem c15_loaded_view_is_reopen_view : forall s i,
   (forall kg, In kg (h5_root s i) -> fst kg <> reserved_group) -> loaded_view s i = reopen_view s i.
 Proof. exact loaded_view_is_reopen_view. Qed.
 Print Assumptions c15_loaded_view_is_reopen_view.
-(* non-vacuity: Proofs/CatalogueLoader.v loader_keeps_relatives (24 relatives of the reserved name are kept, it is not) *)
+(* non-vacuity: Proofs/CatalogueLoaderOk.v loader_keeps_relatives (24 relatives of the reserved name are kept, it is not) *)
 
 (* ---- (3) FULL: rename is all or nothing.  If it raises (unknown key, clash) the state is unchanged; if it
    returns, the frame lists `subst m` of its old names in the old order on the Python side, the h5 group holds
